@@ -1,13 +1,13 @@
 #!/bin/sh
-# usage: tools/verify_seeded.sh <Cxx> : confirm every mutation delivered under /tmp/mut/<Cxx>/_out/m* in a fresh scratch
+# usage: tools/verify_seeded.sh <Cxx> [srcroot=/tmp/mut] [prefix=m]: confirm every mutation delivered under <srcroot>/<Cxx>/_out/m* in a fresh scratch
 # worktree (patch applies, the 171 baseline tests still pass, demo fails with the patch and passes without) and copy the
 # confirmed ones to /verif/seeded/<Cxx>-m<i>/
-PID=$1
+PID=$1; SRC=${2:-/tmp/mut}; PFX=${3:-m}
 WT=/tmp/seedverify_$PID
 cd /repo && git worktree add -q --detach "$WT" HEAD || exit 9
-for d in /tmp/mut/$PID/_out/m*; do
+for d in $SRC/$PID/_out/m*; do
   [ -f "$d/patch.diff" ] || continue
-  i=$(basename "$d")
+  i=$(basename "$d"); n=$PFX${i#m}
   cd "$WT" && git checkout -q -- . && git clean -qfd
   mkdir -p _out/$i && cp "$d/demo.py" _out/$i/
   /venv/bin/python _out/$i/demo.py >/tmp/seed_$PID_$i.clean.log 2>&1; rc_clean=$?
@@ -17,7 +17,7 @@ for d in /tmp/mut/$PID/_out/m*; do
   git checkout -q -- .
   case "$tests" in *"171 passed"*) tok=1;; *) tok=0;; esac
   if [ $rc_clean -eq 0 ] && [ $rc_mut -ne 0 ] && [ $tok -eq 1 ]; then
-    dst=/verif/seeded/$PID-$i; mkdir -p $dst
+    dst=/verif/seeded/$PID-$n; mkdir -p $dst
     cp "$d/patch.diff" "$d/demo.py" $dst/
     /venv/bin/python - "$d/meta.json" "$dst/meta.json" "$PID" <<PY
 import json,sys
